@@ -72,7 +72,9 @@ def replay_listing(task):
     out = []
     for run in rec["runs"]:
         srcs, fs = render(rec["files"], inc, run["base"])
-        r = asm(srcs, fs=fs, timeout=5, listing=True)
+        # non-ASCII quoted text ("u" chunks) is specified for the UTF-8 output charset
+        charset = "utf-8" if any(s_["k"] == "asciic" and any("u" in c for c in s_["cs"]) for f in rec["files"] for s_ in f) else "bk"
+        r = asm(srcs, fs=fs, timeout=5, listing=True, charset=charset)
         p = None
         if r["outcome"] != "ok":
             p = {"kind": "crash" if r["outcome"] in ("hang", "exception") else "rejected", "what": f"outcome={r['outcome']} exc={r['exc']} {[x[1] for x in r['reports'] if x[0] != 'warning'][:3]}"}
